@@ -8,6 +8,16 @@
            StrWidth / LineHeight at size (h,v) and at size (1,1), GetCharWidth of every
            byte(rune) of the string, GetImgSlice() after RenderText at (cx,cy) size (h,v) [A],
            at (cx+dx,cy+dy) size (h,v) [B], at (cx,cy) size (1,1) [C]; `panic` if it panicked.
+   second kind - STATEFUL sequences on ONE image object (NewImage W H; SetTextColor(true)):
+     (seq W H ((op ...) ...) (obs ...))   one observation per operation
+       (font n p) (tsz h v) (spc s) (cur x y) (wrap b) -> 0
+       (clr)      FillRect(0,0,W,H,false)              -> #buf
+       (sw #str)  StrWidth(str)                         -> width
+       (lh)       LineHeight()                          -> height
+       (txt #str) StrWidth(str), LineHeight(), RenderText(str) -> (width height #buf)
+     every (txt) is judged by the box law with the metrics reported AT THAT MOMENT, the cursor
+     of the last (cur) (if no rendering moved it since), the size step of the last (tsz), on the
+     pixels that changed between the previous and the new buffer; the model threads the same state.
    (a) model vs implementation: all of the above; (b) the laws of Spec/TextBox.v evaluated on
    the implementation's buffers and reported metrics only. *)
 From RP Require Import Lib.Base Lib.Utf8 Lib.Sexp Model.Mono Spec.Clip Spec.TextBox.
@@ -159,8 +169,101 @@ Definition run_case (sx : sexp) : sexp :=
   | _ => v_badcase
   end.
 
+(* ---------- stateful sequences ---------- *)
+Inductive sop :=
+| SSet (o : op)            (* a setter: font / tsz / spc / cur / wrap *)
+| SClr
+| SWidth (str : list Z)
+| SHeight
+| SText (str : list Z).
+
+Definition dec_sop (sx : sexp) : option sop :=
+  match sx with
+  | L (S n :: args) =>
+    let is k := bytes_eqb n (str k) in
+    match args with
+    | [I a; I b] =>
+      if is "font" then Some (SSet (OSetFont a (negb (b =? 0))))
+      else if is "tsz" then Some (SSet (OSetTextSize a b))
+      else if is "cur" then Some (SSet (OSetCursor a b)) else None
+    | [I a] =>
+      if is "spc" then (if (0 <=? a) && (a <? 256) then Some (SSet (OSetSpacing a)) else None)
+      else if is "wrap" then Some (SSet (OSetWrap (negb (a =? 0)))) else None
+    | [B b] =>
+      if negb (bytes_ok b) then None
+      else if is "sw" then Some (SWidth b) else if is "txt" then Some (SText b) else None
+    | [] => if is "clr" then Some SClr else if is "lh" then Some SHeight else None
+    | _ => None
+    end
+  | _ => None
+  end.
+
+Fixpoint dec_sops (l : list sexp) : option (list sop) :=
+  match l with
+  | [] => Some []
+  | x :: r => let? o := dec_sop x in let? os := dec_sops r in Some (o :: os)
+  end.
+
+(* [m]: model image (state + buffer); [prev]: the implementation's previous buffer;
+   [cur]: is the cursor still where the last (cur) put it? *)
+Fixpoint walk_seq (W H : Z) (m : img) (prev : list Z) (cur : bool) (ops : list sop) (obs : list sexp)
+                  (k : Z) (nt : bool) (pending : option sexp) : sexp :=
+  let wib := (W + 7) / 8 in
+  match ops, obs with
+  | [], [] => match pending with Some v => v | None => v_ok nt end
+  | o :: ops', ob :: obs' =>
+    let fail (v : sexp) := match pending with Some p => p | None => v end in
+    match o, ob with
+    | SSet so, I _ =>
+      let cur' := match so with OSetCursor _ _ => true | _ => cur end in
+      walk_seq W H (run_op m so) prev cur' ops' obs' (k + 1) nt pending
+    | SClr, B buf =>
+      (* FillRect is C16's subject; here the cleared canvas is simply required to be blank *)
+      if negb ((zlen buf =? wib * H) && forallb (Z.eqb 0) buf) then fail (L [sym "mismatch"; sym "clr"; I k])
+      else walk_seq W H (with_data m buf) buf cur ops' obs' (k + 1) nt pending
+    | SWidth b, I w =>
+      let pend := if str_width (it m) b =? w then pending
+                  else match pending with Some p => Some p | None => Some (L [sym "mismatch"; sym "strwidth"; I k; I (str_width (it m) b)]) end in
+      walk_seq W H m prev cur ops' obs' (k + 1) nt pend
+    | SHeight, I h =>
+      let pend := if line_height (it m) =? h then pending
+                  else match pending with Some p => Some p | None => Some (L [sym "mismatch"; sym "lineheight"; I k; I (line_height (it m))]) end in
+      walk_seq W H m prev cur ops' obs' (k + 1) nt pend
+    | SText b, L [I w; I h; B buf] =>
+      let t := it m in
+      let judged := cur && negb (twrap t) && negb (has_lf (range_bytes b)) in
+      if negb ((zlen buf =? wib * H) && bytes_ok buf) then L [sym "specfail"; sym "c20-shape"; I k]
+      else if judged && negb (box_law_p (8 * wib) H (fpx (rows_of wib prev)) (fpx (rows_of wib buf)) (tcx t) (tcy t) w (tsh t) h)
+      then L [sym "specfail"; sym "c20-box"; I k; I w]       (* a spec failure outranks any pending mismatch *)
+      else
+        let m' := run_op m (OText b) in
+        let pend :=
+          if (str_width t b =? w) && (line_height t =? h) && bytes_eqb (idata m') buf then pending
+          else match pending with Some p => Some p | None => Some (L [sym "mismatch"; sym "txt"; I k; I (str_width t b); I (line_height t)]) end in
+        (* keep going on the IMPLEMENTATION's buffer so that later renderings are still judged *)
+        walk_seq W H (with_data m' buf) buf false ops' obs' (k + 1) (nt || (judged && negb (bytes_eqb prev buf))) pend
+    | _, _ => L [sym "specfail"; sym "c20-panic"; I k]
+    end
+  | _, _ => v_badcase
+  end.
+
+Definition run_seq (W H : Z) (ops obs : list sexp) : sexp :=
+  if (W <? 0) || (H <? 0) then v_badcase else
+  match dec_sops ops with
+  | None => v_badcase
+  | Some sops =>
+    let m := run_op (new_image W H) (OSetTextColor true) in
+    walk_seq W H m (idata m) false sops obs 0 false None
+  end.
+
+Definition run_any (sx : sexp) : sexp :=
+  match sx with
+  | L [S n; I W; I H; L ops; L obs] => if bytes_eqb n (str "seq") then run_seq W H ops obs else run_case sx
+  | _ => run_case sx
+  end.
+
 Definition dispatch_line (line : list Z) : list Z :=
   match parse_sexp line with
-  | Some s => print_sexp (run_case s)
+  | Some s => print_sexp (run_any s)
   | None => print_sexp (L [sym "badcase"; sym "parse"])
   end.
